@@ -24,7 +24,7 @@ func sequenceCase(c *run.Ctx) run.Result {
 	defer flushStats(&res)
 	r := c.SubRng(3)
 	// the plan: C = constrained, P = plain
-	plans := []string{"CP", "CPP", "PCP", "CCP", "CPCP", "PPCPP", "CPCCP", "CcP"}
+	plans := []string{"CP", "CPP", "PCP", "CCP", "CPCP", "PPCPP", "CPCCP", "CcP", "PPPP", "PCPPP", "CPPCP", "PPPPPP"}
 	plan := plans[c.Case%len(plans)]
 	if r.Intn(4) == 0 {
 		plan = plans[r.Intn(len(plans))]
@@ -34,11 +34,16 @@ func sequenceCase(c *run.Ctx) run.Result {
 	var w workload
 	prevCut := false
 	nontrivial := true
+	// call sizes: big, small, equal, bigger, half, ... so that later index lists fit into (or outgrow) earlier ones
+	n0 := 30 + r.Intn(50)
+	sizes := []int{n0, n0/3 + 4, n0/3 + 4, n0 + 20, n0 / 2, n0/3 + 4, n0}
+	var keep keeper
 	for step, kind := range plan {
+		nCall := sizes[step%len(sizes)]
 		switch kind {
 		case 'C', 'c':
 			// a point cloud and one or two outlines through its middle
-			n := 8 + r.Intn(50)
+			n := imax(8, nCall)
 			ext := math.Pow(10, float64(r.Intn(5)-2))
 			ox, oy := 0., 0.
 			if r.Intn(2) == 0 {
@@ -102,8 +107,19 @@ func sequenceCase(c *run.Ctx) run.Result {
 				res.Count("constrained_calls_that_cut_triangles", 1)
 			}
 			prevCut = cut
+			later := fmt.Sprintf("call %d (constrained, %d points)", step+1, n)
+			if !keep.recheck(&res, later, len(keep.all), 2, r) {
+				return res
+			}
+			mc := m
+			keep.add(&res, mc, later, func(idx []int) []finding {
+				if err := ref.WF(mc); err != nil {
+					return []finding{{class: "constrained-output-malformed", detail: err.Error()}}
+				}
+				return nil
+			})
 		default:
-			P, ww, ok := drawCertifiedAt(c, &res, 4+r.Intn(77), uint64(step+1), c.Case+step)
+			P, ww, ok := drawCertifiedAt(c, &res, nCall, uint64(step+1), c.Case+step)
 			if !ok {
 				return res
 			}
@@ -112,10 +128,15 @@ func sequenceCase(c *run.Ctx) run.Result {
 			dt := bruteDelaunay(P)
 			hull2 := polyArea2Exact(hullExact(P))
 			c.Note(fmt.Sprintf("step %d plain %s", step, w.sig()))
-			idx, ok1 := triangulate(&res, P, r.Intn(3) == 0, w.Class+"/after "+plan[:step])
+			mp, idx, ok1 := triangulateKeep(&res, P, r.Intn(3) == 0, w.Class+"/after "+plan[:step])
 			if !ok1 {
 				return res
 			}
+			later := fmt.Sprintf("call %d (plain, %d points)", step+1, len(P))
+			if !keep.recheck(&res, later, len(keep.all), 2, r) {
+				return res
+			}
+			keep.add(&res, mp, later, func(idx []int) []finding { fs, _ := checkOutput(P, idx, dt, hull2); return fs })
 			fs, st := checkOutput(P, idx, dt, hull2)
 			label := fmt.Sprintf("call %d of sequence %s", step+1, plan)
 			if step > 0 && (plan[step-1] == 'C' || plan[step-1] == 'c') {
@@ -136,6 +157,7 @@ func sequenceCase(c *run.Ctx) run.Result {
 			prevCut = false
 		}
 	}
+	keep.recheck(&res, "the last call of the case", len(keep.all), imin(len(keep.all), 6), r)
 	res.Nontrivial = nontrivial
 	if c.Case < 4 {
 		res.Sample = map[string]any{"plan": plan, "last_plain_workload": w}
